@@ -329,5 +329,52 @@ func Gen(r *hx.Run) {
 		}
 		w.sleepMs(attempts*timeoutMs + 50)
 	}
+	// stale records: a neighbour that was overwritten / re-resolved leaves its old record behind in the ring; when
+	// the ring wraps onto that record the live one must survive (and a waiter on it must still be told the outcome)
+	bulk := func(from, n int) {
+		for i := from; i < from+n; i++ {
+			a := []byte{10, 2, byte(i >> 8), byte(i)}
+			m := []byte{2, 2, 0, 0, byte(i >> 8), byte(i)}
+			w.s.AddLinkAddress(1, tcpip.Address(a), tcpip.LinkAddress(m))
+			w.r.Emit(fmt.Sprintf("add 1 %s %s", hx.Hex(a), hx.Hex(m)), "wake:0")
+		}
+	}
+	for round := 0; round < r.Pick(1, 3); round++ {
+		// (a) overwrite, then wrap onto the stale record
+		w.reset()
+		nv := 2 + r.R.Intn(4)
+		first := r.R.Intn(40)
+		bulk(0, first)
+		for v := 0; v < nv; v++ {
+			w.s.AddLinkAddress(1, tcpip.Address([]byte{10, 3, 0, byte(v)}), tcpip.LinkAddress([]byte{2, 3, 0, 0, 0, byte(v)}))
+			w.r.Emit(fmt.Sprintf("add 1 %s %s", hx.Hex([]byte{10, 3, 0, byte(v)}), hx.Hex([]byte{2, 3, 0, 0, 0, byte(v)})), "wake:0")
+		}
+		mid := 300 + r.R.Intn(150)
+		bulk(first, mid)
+		w.tick()
+		for v := 0; v < nv; v++ {
+			w.add([]byte{10, 3, 0, byte(v)}, []byte{2, 3, 9, 9, 9, byte(v)}) // new link address: a fresh slot, the old record stays
+		}
+		bulk(first+mid, 512-mid+r.R.Intn(30)) // the ring wraps over the stale records
+		w.tick()
+		for v := 0; v < nv; v++ {
+			w.get([]byte{10, 3, 0, byte(v)})
+		}
+		w.r.Count("stale.overwrite-then-wrap")
+		// (b) expiry, re-resolution in flight, wrap onto the stale record, then the answer arrives
+		w.reset()
+		k := []byte{10, 3, 1, 1}
+		w.add(k, []byte{2, 3, 1, 1, 1, 1})
+		fill := 470 + r.R.Intn(35)
+		bulk(0, fill)
+		w.sleepMs(ageMs + 60)
+		w.get(k) // incomplete entry in a fresh slot, a waiter registered
+		bulk(fill, 512-fill+r.R.Intn(6)) // wraps onto the neighbour's expired old record
+		w.add(k, []byte{2, 3, 1, 1, 1, 2}) // the answer: the waiter must be woken
+		w.get(k)
+		w.sleepMs(attempts*timeoutMs + 50)
+		w.get(k)
+		w.r.Count("stale.reresolve-then-wrap")
+	}
 	w.sl.Done()
 }
